@@ -31,7 +31,7 @@ fn plan(tier: Tier, _seed: u64) -> Plan {
 		// kind x callers x mode(threads|tasks) x repetitions
 		cases: (KINDS.len() * CALLERS.len() * 2) as u64 * tier.pick(2, 6),
 		shards: 4,
-		case_timeout_s: 600,
+		case_timeout_s: 150,
 		level: "exploration",
 		rule: "one case = (reader kind in {DataReaderFile, versatiles, pmtiles, tar}, 2|4|8|16 concurrent callers, OS threads with private runtimes | tasks on a 16-worker tokio runtime, seeded plan of offsets / coordinates incl. absent ones). Every call's concurrent result is compared with the result of the same call executed alone. A case is non-trivial if at least two calls overlapped in time (in-flight counter >= 2); distinct by (kind, callers, mode, plan seed)".into(),
 		assumptions: vec![
@@ -271,6 +271,18 @@ fn run_case(cx: &CaseCtx, rep: &mut Report) {
 		}
 	}
 
+	// The reference above has warmed every cache of that reader. The concurrent phase runs on a reader opened
+	// afresh, so that callers meet cold blocks / leaf directories together (where loading races live).
+	let target = match (&target, &fresh_path) {
+		(Target::Tiles(_), Some(p)) => match guard::block_on(get_reader(p.to_str().unwrap())) {
+			Ok(r) => {
+				rep.count("concurrent_phases_on_a_cold_reader", 1);
+				Target::Tiles(r)
+			}
+			Err(_) => target,
+		},
+		_ => target,
+	};
 	let target = Arc::new(target);
 	let plans = Arc::new(plans);
 	let inflight = Arc::new(AtomicUsize::new(0));
